@@ -14,6 +14,8 @@ Proved here, for all inputs:
   attributes, comments and doc comments. This covers structs, enums, newtypes, consts of all kinds, services with
   functions in all three body forms, events, inline structs and enums, both fallbacks, file prelude, and the
   formatter's complete blank-line state machine (shown to write blank runs only);
+* `formatting_again_changes_nothing` — the schema read back from the formatted text is formatted to the same text
+  (`format_of_canonical_form`: the formatter sees lines only through their inner text and sorts imports stably);
 * `struct_def_roundtrip`, `enum_def_roundtrip`, `service_def_roundtrip`, `const_def_roundtrip`,
   `newtype_def_roundtrip`, `definition_roundtrip` — the same per definition, whatever follows it;
 * `type_roundtrip` — the text the formatter writes for a type is parsed back to that type, for every type the
@@ -32,6 +34,7 @@ import Aldrin.Lemmas.Schema.Types
 import Aldrin.Lemmas.Schema.Lines
 import Aldrin.Lemmas.Schema.Schema
 import Aldrin.Lemmas.Schema.ValidSound
+import Aldrin.Lemmas.Schema.Idem
 
 namespace Aldrin.Schema
 
@@ -46,6 +49,19 @@ every AST the model parser produces in the correspondence runs. -/
 theorem format_parses_back_checked (s : Schema) (hv : validSchemaB s = true) (fuel : Nat) (hf : schemaFuel s ≤ fuel) :
     fileP fuel (format s) = some (canonSchema s) :=
   fileP_format s (validSchemaB_sound hv) fuel hf
+
+/-- Formatting the result again changes nothing: the schema read back from the formatted text is formatted to the
+same text. -/
+theorem formatting_again_changes_nothing (s : Schema) (hv : ValidSchema s) (fuel : Nat) (hf : schemaFuel s ≤ fuel) :
+    (fileP fuel (format s)).map format = some (format s) := by
+  rw [fileP_format s hv fuel hf, Option.map_some, format_canon]
+
+/-- The formatter sees comment and doc lines only through their inner text, and sorts imports stably by name:
+a schema and its canonical form are formatted alike. -/
+theorem format_of_canonical_form (s : Schema) : format (canonSchema s) = format s := format_canon s
+
+/-- The imports of the schema read back are sorted by name. -/
+theorem imports_sorted (s : Schema) : SortedI (sortImports s.imports) := sortImports_sorted s.imports
 
 theorem definition_roundtrip (d : Definition) (hv : ValidDef d) (fuel : Nat) (hf : defFuel d ≤ fuel) (txt : Str)
     (ht : DefTexts d txt) (w rest : Str) (hw : Blank w) : defP fuel (skipWs (w ++ (txt ++ rest))) = some (canonDef d, rest) :=
